@@ -44,6 +44,11 @@ def derived(res, src, pool):
             continue
         if is_var(s[2]) and r[2] in pool:
             continue
+        if is_var(s[2]) and isinstance(r[2], tuple) and isinstance(s[2], tuple) and len(r[2]) == len(s[2]) and all(
+                rk == sk and (rv == sv or (str(sv).startswith('X') and any(
+                    isinstance(pf, tuple) and any(pv == rv for _, pv in pf) for pf in pool)))
+                for i, ((rk, rv), (sk, sv)) in enumerate(zip(r[2], s[2]))):
+            continue            # each variable slot filled with a slot value that occurs in the inputs
         return False
     return True
 
@@ -86,8 +91,8 @@ def justify(x, y, res, sym):
             return UNSPEC
         if not m:
             return 'argument does not match'
-        if is_mod(x):
-            return None if res == y else 'modifier must return the other category unchanged'
+        if is_mod(x) and res == y:
+            return None             # (the modifier shortcut; the statement does not ask for it, nor forbid it)
         return None if derived(res, x[1], pool) else 'result is not the functor result'
     if sym == '<':
         if not fun(y, BWD):
@@ -97,8 +102,8 @@ def justify(x, y, res, sym):
             return UNSPEC
         if not m:
             return 'argument does not match'
-        if is_mod(y):
-            return None if res == x else 'modifier must return the other category unchanged'
+        if is_mod(y) and res == x:
+            return None
         return None if derived(res, y[1], pool) else 'result is not the functor result'
     if sym == '>B':
         if not (fun(x, FWD) and fun(y, FWD)):
@@ -108,9 +113,9 @@ def justify(x, y, res, sym):
             return UNSPEC
         if not m:
             return 'composed-over categories do not match'
-        if is_mod(x):
-            return None if res == y else 'modifier must return the other category unchanged'
-        ok = res[0] == 'f' and res[2] == '/' and derived(res[1], x[1], pool) and derived(res[3], y[3], pool)
+        if is_mod(x) and res == y:
+            return None
+        ok = res[0] == 'f' and res[2] in ('/', y[2]) and derived(res[1], x[1], pool) and derived(res[3], y[3], pool)
         return None if ok else 'result is not A/C'
     if sym in ('<B1', '<B2', '<B3', '<B4'):
         n = int(sym[2:])
@@ -127,13 +132,13 @@ def justify(x, y, res, sym):
             return UNSPEC
         if not m:
             return 'composed-over categories do not match'
-        if is_mod(y):
-            return None if res == x else 'modifier must return the other category unchanged'
+        if is_mod(y) and res == x:
+            return None
         rs = spine(res, n - 1)
         if rs is None:
             return 'result has too few arguments'
         rcore, rargs = rs
-        if not (rcore[0] == 'f' and rcore[2] == '\\' and derived(rcore[1], y[1], pool)
+        if not (rcore[0] == 'f' and rcore[2] in ('\\', core[2]) and derived(rcore[1], y[1], pool)
                 and derived(rcore[3], core[3], pool)):
             return 'result core is not A\\C'
         if [s for s, _ in rargs] != [s for s, _ in args]:
@@ -154,8 +159,8 @@ def justify(x, y, res, sym):
             return UNSPEC
         if not m:
             return 'composed-over categories do not match'
-        if is_mod(x):
-            return None if res == y else 'modifier must return the other category unchanged'
+        if is_mod(x) and res == y:
+            return None
         rs = spine(res, n - 1)
         if rs is None:
             return 'result has too few arguments'
